@@ -178,14 +178,46 @@ theorem set_version_guards (n : Node) (v : Nat) :
   · intro h; rw [if_pos h]
   · intro h1 h2; rw [if_neg (by omega), if_pos h2]
 
-/-- **The switch itself**: a VERSION entry for a version this code has sets the enabled version and the name table
-and is consumed like any other entry; the `onCodeVersionChanged(old, new)` hook runs with both already switched. -/
-theorem version_entry_switches (n : Node) (v idx term : Nat) (h : v ≤ selfCodeVersion n.cls) :
+/-- **The switch itself**: a VERSION entry for a version this code has that is not below the enabled one sets the
+enabled version and the name table and is consumed like any other entry; the `onCodeVersionChanged(old, new)` hook
+runs with both already switched. (Below the enabled version: `lower_version_entry_changes_nothing`; above the code's
+version: `unsupported_version_entry_keeps_node`.) -/
+theorem version_entry_switches (n : Node) (v idx term : Nat) (h : v ≤ selfCodeVersion n.cls) (hup : n.enabled ≤ v) :
     ∃ n' cbs, applyEntry n ⟨.version v, idx, term⟩ = (n', Ev.versionChanged n.enabled v v v :: cbs, true) ∧
       n'.enabled = v ∧ n'.tableVer = v ∧ n'.lastApplied = n.lastApplied + 1 ∧ ranIdxs cbs = [] := by
   unfold applyEntry
-  simp only [if_neg (show ¬ selfCodeVersion n.cls < v by omega)]
+  simp only [if_neg (show ¬ selfCodeVersion n.cls < v by omega), if_neg (show ¬ v < n.enabled by omega)]
   exact ⟨_, _, rfl, rfl, rfl, rfl, ranIdxs_fireCallbacks _ _ _⟩
+
+/-- **A request to enable a lower version is rejected also when it only shows at apply time** (repair D71:
+`setCodeVersion` compares with the version applied so far on the requester, so `setCodeVersion(2); setCodeVersion(1)`
+before the next tick, or requests from two nodes, put VERSION 2 then VERSION 1 into the log). The entry below the
+enabled version changes nothing - enabled version, name table: as before; no `onCodeVersionChanged`; no implementation
+runs - it is consumed (`lastApplied + 1`, the loop goes on) and the subscribers of its term get the refusal
+`Res.lowerVersion enabled v` as the result. -/
+theorem lower_version_entry_changes_nothing (n : Node) (v idx term : Nat) (h : v < n.enabled)
+    (hs : n.enabled ≤ selfCodeVersion n.cls) :
+    ∃ n', applyEntry n ⟨.version v, idx, term⟩ =
+        (n', fireCallbacks (popWaiting n.waiting idx).1 term (.lowerVersion n.enabled v), true) ∧
+      n'.enabled = n.enabled ∧ n'.tableVer = n.tableVer ∧ n'.lastApplied = n.lastApplied + 1 ∧
+      ranIdxs (fireCallbacks (popWaiting n.waiting idx).1 term (.lowerVersion n.enabled v)) = [] ∧
+      (∀ o w he ht, Ev.versionChanged o w he ht ∉ fireCallbacks (popWaiting n.waiting idx).1 term (.lowerVersion n.enabled v)) := by
+  unfold applyEntry
+  simp only [if_neg (show ¬ selfCodeVersion n.cls < v by omega), if_pos h, List.nil_append]
+  refine ⟨_, rfl, rfl, rfl, rfl, ranIdxs_fireCallbacks _ _ _, ?_⟩
+  intro o w he ht hm
+  simp only [fireCallbacks, List.mem_map] at hm
+  obtain ⟨s, _, hs'⟩ := hm
+  split at hs' <;> cases hs'
+
+example : ∃ (n : Node) (v : Nat), v < n.enabled ∧ n.enabled ≤ selfCodeVersion n.cls ∧ n.waiting ≠ [] := by
+  refine ⟨{ initNode [⟨0, [102], 2⟩] with enabled := 2, tableVer := 2, waiting := [(4, [(1, 72)])] }, 1, by decide, ?_, by decide⟩
+  exact ver_le_selfCodeVersion (c := ⟨0, [102], 2⟩) (by simp [initNode])
+
+/-- **The enabled version never goes down** - along every log, for every sequence of ticks / commit moves / appends /
+subscriptions, whatever VERSION entries the log contains and however it is cut into batches. -/
+theorem enabled_version_never_decreases (n : Node) (ops : List Op) : n.enabled ≤ (run n ops).1.enabled :=
+  run_mono ops n
 
 /-- **The version-change hook sees the new version AND the new name table.** Whenever the apply loop - one entry, a
 batch, or any sequence of ticks / commit moves / appends / subscriptions - reports `onCodeVersionChanged(old, new)`,
@@ -210,10 +242,13 @@ theorem hook_sees_new_table :
     · rename_i v' hv'
       split at h
       · simp at h
-      · simp only [List.cons_append, List.nil_append, List.mem_cons] at h
-        rcases h with h | h
-        · cases h; exact ⟨rfl, rfl, rfl, hv'⟩
-        · exact absurd h (hcb _ _ _)
+      · split at h
+        · simp only [List.nil_append] at h
+          exact absurd h (hcb _ _ _)
+        · simp only [List.cons_append, List.nil_append, List.mem_cons] at h
+          rcases h with h | h
+          · cases h; exact ⟨rfl, rfl, rfl, hv'⟩
+          · exact absurd h (hcb _ _ _)
     · split at h
       · simp only [List.cons_append, List.nil_append, List.mem_cons] at h
         rcases h with h | h
@@ -286,11 +321,12 @@ theorem hook_sees_new_table :
         · exact ih n1 o v he ht (by rw [hr]; exact h)
 
 /-- **The enabled version is a function of the applied entries**: a batch that is consumed completely leaves the
-version of its last VERSION entry (the previous one if it has none). Hence all nodes that applied the same prefix
-of the log are on the same version - the switch is cluster wide. -/
-theorem enabled_version_is_last_version_applied (n n' : Node) (es : List Entry) (evs : List Ev)
+HIGHEST version among the previous one and its VERSION entries (`versionAfter`; a VERSION entry below the version
+enabled at its position has no effect, D71). Hence all nodes that applied the same prefix of the log are on the same
+version - the switch is cluster wide. -/
+theorem enabled_version_is_highest_version_applied (n n' : Node) (es : List Entry) (evs : List Ev)
     (h : applyBatch n es = (n', evs)) (hall : n'.lastApplied = n.lastApplied + es.length) :
-    n'.enabled = lastVersion n.enabled es :=
+    n'.enabled = versionAfter n.enabled es :=
   applyBatch_enabled es n n' evs h hall
 
 example : ∃ (n n' : Node) (es : List Entry) (evs : List Ev), applyBatch n es = (n', evs) ∧
@@ -407,7 +443,7 @@ theorem survives_snapshot_and_restart (m r : Node) (d : Dump) (clear : Bool) (h 
 
 /-- The other branch of `__loadDumpFile`: a received snapshot (`clearJournal`) whose last entry the node has already
 applied, or already holds with the same term, is ignored - log, position, enabled version, name table and waiting callbacks stay as
-they are (the node got / will get the switch through its own log: `enabled_version_is_last_version_applied`). A dump
+they are (the node got / will get the switch through its own log: `enabled_version_is_highest_version_applied`). A dump
 read from the node's own file at start-up (`clearJournal = false`) is never ignored. -/
 theorem snapshot_already_held_is_ignored (r : Node) (d : Dump) (clear : Bool) :
     (skipsInstall r d clear = true → loadDump r d clear = r ∧ clear = true ∧
